@@ -9,6 +9,10 @@ CONSTANTS
   DevDup = TRUE
   DevClash = TRUE
   DevBmDang = TRUE
+  DevReach = FALSE
+  DevZero = FALSE
+  DevFit = "none"
+  Limit = 20
   Allowed = {"ok", "pageorder.dupkids", "pageorder.numclash", "bookmark.dangling.capture"}
   Emit = TRUE
   EmitMod = 1
